@@ -147,6 +147,7 @@ class Lowering:
         self.mem_orders = []
         self.skipped = []
         self.statics = []
+        self.aliases = {}
         for d in docs:
             self._index(d, [], False)
         self._name_functions()
@@ -304,6 +305,12 @@ class Lowering:
                     if m.get('kind') in ('CXXMethodDecl', 'CXXConstructorDecl', 'CXXConversionDecl'):
                         r.methods.append(m)
                         self.owner[m['id']] = r
+        for c in kids(n):
+            if c.get('kind') in ('TypeAliasDecl', 'TypedefDecl') and c.get('name'):
+                t = c.get('type') or {}
+                tgt = t.get('desugaredQualType') or t.get('qualType')
+                for pre in {sanitize(qualify(printed)), sanitize(qualify(full))}:
+                    self.aliases[pre + '__' + c['name']] = tgt
         for b in n.get('bases', []) or []:
             r.bases.append(b)
         self.rec_of_id[n['id']] = r
@@ -511,10 +518,26 @@ class Lowering:
         return self.recs.get(key)
 
     def rec_of_type(self, q):
+        q = self.unalias(q)
         base, n = split(q)
         return self.rec_lookup(base)
 
+    def unalias(self, q):
+        """resolve `Record::alias` spellings clang left sugared (no desugaredQualType in the dump)"""
+        for _ in range(4):
+            base, n = split(q)
+            if base in SCALARS or self.rec_lookup(base) is not None or '::' not in base:
+                return q
+            i = base.rfind('::')
+            key = sanitize(base[:i]) + '__' + base[i + 2:]
+            tgt = self.aliases.get(key)
+            if tgt is None:
+                return q
+            q = qualify(tgt) + ' *' * n
+        return q
+
     def ctype(self, q):
+        q = self.unalias(q)
         base, n = split(q)
         if base in SCALARS:
             return SCALARS[base] + '*' * n
@@ -526,15 +549,18 @@ class Lowering:
         return 'struct ' + cname(base) + '*' * n
 
     def class_cname(self, q):
+        q = self.unalias(q)
         base, n = split(q)
         r = self.rec_lookup(base)
         return r.cname if r is not None else cname(base)
 
     def is_class(self, q):
+        q = self.unalias(q)
         base, n = split(q)
         return n == 0 and base not in SCALARS
 
     def needs_dtor(self, q):
+        q = self.unalias(q)
         base, n = split(q)
         if n or base in SCALARS:
             return False
@@ -547,6 +573,7 @@ class Lowering:
         return not matches(NODTOR_EXT, cname(base))
 
     def is_trivial_ext(self, q):
+        q = self.unalias(q)
         base, n = split(q)
         return self.rec_lookup(base) is None and matches(TRIVIAL_EXT, cname(base))
 
